@@ -7,7 +7,7 @@ ROOT = os.path.dirname(os.path.dirname(os.path.abspath(__file__)))
 TECH = "machine-checked proof in Coq 8.16 about a hand-written executable model + differential correspondence (extracted model vs. implementation) + translator-regenerated leaf definitions"
 
 CLAIMS = {
-    # id: (level text, level_note, design_ref)
+    # id: (level text, level_note, design_ref[, category])
     "C20": ("Coq theorems C20_two_valued / C20_three_valued (exact enumeration: length 2^k / 3^k, NoDup, membership iff completion / refinement, first element) and the *_stream theorems (successive next() calls return exactly the collected list, then None for ever) about the Gallina model of both odometers, for all vectors of all lengths; the model is tied to datatypes/adf.rs by running both on all vectors up to length 5 (thorough 7) over {0,1,2,3,7} plus random long vectors, compared as sequences.",
             "Trusted: Coq kernel, extraction + OCaml driver, the correspondence harness; Vec/usize modelled as list/N. No axioms.", "4.C20"),
     "C08": ("Coq theorems about the combinator-for-combinator Gallina transcription of lib/src/parser.rs: C08_accepts_grammar (every text of the documented grammar - any fact order, nesting, layout, keyword-like or quoted labels - is accepted and yields exactly the written statements and formulas), C08_accepts_only_grammar / C08_accepts_iff (nothing else is accepted: acceptance iff membership in the grammar), rejection corollaries (missing dot, trailing garbage, blank input) and fuel-independence of the formula parser; all for unbounded inputs. Tie: model and implementation run on rendered random documents and byte-level mutations of them and must agree on accept/reject, names, and every formula; an independent recogniser judges the implementation's answers. The CLI / web halves of the rejection claim are checked under C15 / C16.",
@@ -16,6 +16,22 @@ CLAIMS = {
             "Trusted: Coq kernel, extraction + driver, harness; HashMap/HashSet/Vec modelled as finite maps/sets/lists; usize as unbounded N. Raw Bdd::node with unordered arguments is outside 'diagram-building operations' (precondition of mk_node_ok). No axioms.", "4.C06"),
     "C07": ("Coq theorems C07_not/and/or/imp/iff/xor/variable/restrict: for every store satisfying the invariant (any correct memo-table contents, warm or cold) and all operand handles, the result denotes the named Boolean function of the operands' functions (restrict = cofactor), the store is only extended, and extension preserves the function of every previously issued handle (C07_old_handles_unchanged); totality of restrict and ite; lifted to whole programs (C07_programs, C07_later_operations_do_not_change_earlier_results). Tie: same programs as C06; every operation result of the implementation is checked against the truth-table semantics of the op and against the extracted model.",
             "Trusted: as C06. No axioms.", "4.C07"),
+    "C18": ("Coq theorems about the Gallina model of lib/src/nogoods.rs (NoGood, NoGoodStore with the three duplicate-elimination modes, conclusions bucket by bucket, conclusion closure): C18_conclusions_sound (only forced literals, given literals kept), C18_no_spurious_conflict (conflict only if every total extension matches a stored nogood), C18_conflict_on_match, C18_nothing_forgotten (after any add sequence in any mode the store excludes exactly the assignments excluded by the added non-empty nogoods), closure soundness and totality; unbounded in store size, sequence length, positions. Tie: random add sequences (duplicates, supersets, subsets, flips over-represented) x 3 modes x conclusions / closure / conclude / dump queries, model and implementation must agree exactly; the implementation's answers are judged by enumeration of all total assignments. Two genuine defects found by this check on the pinned tree were repaired in /repo (fix: commits, see KNOWN_FINDINGS.txt); the ignored empty nogood is a recorded finding.",
+            "Trusted: Coq kernel, extraction + driver, harness incl. the cfg(adf_obdd_verif) hooks (closure wrapper, dump); roaring bitmaps = finite sets of positions. No axioms.", "4.C18"),
+    "C01": ("Differential check (theorems for C01 are being proved; until they are in Properties/C01.v this claim is exploration only): the Gallina model of grounded_internal (native back-end) and the implementation run on all truth-table ADFs with <= 2 statements, random structured ADFs (<= 8, thorough 10 statements), with/without lexicographic sorting; answers (T/F/u vector) judged by an independent least-fixpoint computation over all completions and compared with the extracted model including handle numbers.",
+            "No theorem is claimed yet for this property. biodivine / hybrid back-ends are not yet covered by this check.", "4.C01", "exploration"),
+    "C02": ("Differential check (exploration until the theorems land): complete-model enumeration of model and implementation compared as sequences; judged by enumeration of all 3^n interpretations (sound, complete, duplicate-free, grounded first).",
+            "No theorem is claimed yet. Native back-end only so far.", "4.C02", "exploration"),
+    "C03": ("Differential check (exploration until the theorems land): stable() and stable_with_prefilter() of model and implementation compared as sequences; judged by brute-force stable models (two-valued models whose true statements are re-derived by the grounded interpretation of the reduct).",
+            "No theorem is claimed yet. Native back-end, plain and pre-filter variants so far.", "4.C03", "exploration"),
+    "C04": ("Differential check + tie lemma (exploration until the search theorems land): both counting-guided procedures on all n<=2 truth-table ADFs, 3000 (thorough 60000) random n=3 truth-table ADFs and structured ADFs; judged against brute-force stable models (nothing lost, nothing invented, no duplicates); the flag lemma Gen/TieFlagCount.v (regenerated from adf.rs: the cube loop skips an inconsistent cube instead of stopping) must compile. The defect this check found on the pinned tree (thorough tier) is repaired in /repo.",
+            "No theorem about the search itself is claimed yet.", "4.C04", "exploration"),
+    "C05": ("Differential check + tie lemma (exploration until the search theorems land): nogood-learning search in stable and two-valued mode under Simple, both counting heuristics, Rand (draw stream reproduced from an identically seeded StdRng, sequences compared exactly) and a family of custom static heuristics; every run under a watchdog (non-termination is an observation); judged against brute-force stable / two-valued models. The Rand defect found on the pinned tree is repaired in /repo.",
+            "No theorem about the search itself is claimed yet.", "4.C05", "exploration"),
+    "C12": ("Differential check over all 12 feature sets + tie lemma (exploration until Bdd/Counts.v and the cfg-equivalence theorems land): the harness is built under each feature set; the same programs with queries (paths, models naive/memoised, depth, deps) and ADFs with all semantics must answer as the default build (memoised models excluded where documented) and as the Coq model evaluated under the same cfg; Gen/TieFlagDepth.v (regenerated from obdd.rs) must compile. The max_depth defect found on the pinned tree is repaired in /repo.",
+            "Only the flag lemma is proved so far.", "4.C12", "exploration"),
+    "C13": ("Differential check + tie lemmas (exploration until Bdd/Counts.v lands): programs with interleaved queries (paths, naive models, depth, dependencies, cubes, both impact measures) judged from the implementation's own table by path enumeration and truth tables and compared with the model; the leaf predicates regenerated from datatypes/bdd.rs are proved equal to the model's and more_models is proved to be 'models >= counter-models' (Gen/TieMoreModels.v). more_models defect repaired in /repo; terminal-root cubes and usize overflow at depth >= 64 are recorded findings.",
+            "Only the more_models specification is proved so far.", "4.C13", "exploration"),
 }
 
 NOT_YET = "check not built yet in this round (framework under construction; see DESIGN.md section 8 staging)"
@@ -33,7 +49,8 @@ def main():
     for p in props:
         pid = p["id"]
         if pid in CLAIMS:
-            text, note, ref = CLAIMS[pid]
+            text, note, ref = CLAIMS[pid][:3]
+            cat = CLAIMS[pid][3] if len(CLAIMS[pid]) > 3 else "proof"
             checks.append({
                 "property_id": pid,
                 "quick_cmd": "./check %s quick" % pid,
@@ -41,7 +58,7 @@ def main():
                 "evidence_file": "evidence/%s.json" % pid,
                 "replay_cmd_template": "./check %s --replay {path}" % pid,
                 "engine": "coq-model+correspondence",
-                "level_claimed": {"category": "proof", "text": text, "design_ref": "DESIGN.md " + ref},
+                "level_claimed": {"category": cat, "text": text, "design_ref": "DESIGN.md " + ref},
                 "level_note": note,
                 "technique": TECH,
             })
